@@ -67,6 +67,10 @@ def _all_cells():
                         for use in uses:
                             for defkind in ("arith", "rtindex"):
                                 cells.append([flavor, sk, mask, predef, nest, use, defkind])
+                            if nest == "none" and flavor != "comb" and use in ("after", "after_await"):
+                                # the use is an element of the tuple / list a local array Variable is initialised from
+                                for defkind in ("arrtuple", "arrlist"):
+                                    cells.append([flavor, sk, mask, predef, nest, use, defkind])
                         if flavor != "comb" and nest != "outer_if_else" and \
                                 ((bin(mask).count("1") == 1 and predef == 0) or (mask == 0 and predef == 1)):
                             # a Signal constructed inside the body: defined in exactly one arm (every use after it / in a
@@ -121,7 +125,7 @@ def build_cell(cell):
     outputs = [{"name": "ov0", "kind": "u", "default": 1}, {"name": "ov1", "kind": "u", "default": 2},
                {"name": "ob0", "kind": "bit", "default": 0}]
     n = N_ARMS[sk]
-    if defkind in ("arith", "mu", "localsig"):
+    if defkind in ("arith", "mu", "localsig", "arrtuple", "arrlist"):
         exprs = [["add", ["in", "iv0"], ["const", k + 1]] for k in range(3)] + [["xor", ["in", "iv0"], ["in", "iv1"]]]
         pre_expr = ["inv", ["in", "iv1"]]
         use_stmt = {"k": "assign", "t": {"name": "ov0"}, "e": ["loc", "t"]}
@@ -140,14 +144,22 @@ def build_cell(cell):
     if defkind == "localsig":
         use_stmt = {"k": "assign", "t": {"name": "ov0"}, "e": ["sig", "lst"]}
 
+    use_stmts = [use_stmt]
+    if defkind in ("arrtuple", "arrlist"):
+        use_stmts = [{"k": "localarr", "name": "la1", "elems": [["loc", "t"], ["in", "iv1"]], "form": defkind[3:]},
+                     {"k": "assign", "t": {"name": "ov0"}, "e": ["aidx", "la1", ["const", 0]]}]
+
     def arm(k):
         body = [{"k": "assign", "t": {"name": "ov1"}, "e": ["add", ["in", "iv1"], ["const", k]]}]
         if mask >> k & 1:
             body.append(defstmt(exprs[k]))
+            if defkind in ("arrtuple", "arrlist") and not predef and bin(mask).count("1") == 1:
+                # a legal read inside the (only) defining arm keeps the intermediate declared
+                body.append({"k": "assign", "t": {"name": "ov1"}, "e": ["loc", "t"]})
         if use == "await_in_arm" and k == 0:
             body.append({"k": "await", "c": ["in", "ib2"]})
         if use == "in_sibling" and k == n - 1 and n > 1:
-            body.append(use_stmt)  # the use sits in the last arm, a sibling of the defining arm(s)
+            body.extend(use_stmts)  # the use sits in the last arm, a sibling of the defining arm(s)
         return body
 
     conds = [["in", "ib0"], ["in", "ib1"]]
@@ -188,12 +200,12 @@ def build_cell(cell):
         crosses_await = bool(mask & 1) or bool(predef)
     if use == "in_sibling":
         if n == 1:
-            body.append(use_stmt)  # single-arm skeletons: same as "after"
+            body.extend(use_stmts)  # single-arm skeletons: same as "after"
             must_reject = (not predef and not all_paths_define) or crosses_await
         else:
             must_reject = not predef and not (mask >> (n - 1) & 1)
     else:
-        body.append(use_stmt)
+        body.extend(use_stmts)
         must_reject = (not predef and not all_paths_define) or crosses_await
     if not mask and not predef:
         must_reject = True  # t is never bound at all
